@@ -81,6 +81,36 @@ theorem crossfoldUsersT_eq {β} (recs : List (IRec β)) (users perm : List Nat) 
   unfold crossfoldUsersT
   simp only [makeSplitT_eq]
 
+/-! ### temporal -/
+
+theorem selectMask_map_eq_filter {α} (l : List α) (q : α → Bool) : selectMask l (l.map q) = l.filter q := by
+  induction l with
+  | nil => rfl
+  | cons a l ih => cases h : q a <;> simp [selectMask, h, ih]
+
+/-- **C05 (`split_global_time`, one cut-off):** training = the records strictly before the cut-off; test = those from the cut-off on, up to
+    (not including) the next cut-off — or the end bound after the last one: the model's `temporalSplit` -/
+theorem globalTimeRoundT_eq {β} (recs : List (IRec β)) (times : List Int) (end_ : Option Int) (i : Nat) (t : Int) :
+    globalTimeRoundT recs times end_ i t
+      = temporalSplit recs t (if i + 1 < times.length then times[i + 1]? else end_) := by
+  unfold globalTimeRoundT temporalSplit
+  simp only
+  congr 1
+  cases h : (if i + 1 < times.length then times[i + 1]? else end_) with
+  | none =>
+    simp only
+    rw [selectMask_map_eq_filter]
+    apply List.filter_congr
+    intro r _; simp
+  | some e =>
+    simp only
+    have : List.zipWith (fun a b => a && b) (recs.map (fun r => decide (t ≤ r.t))) (recs.map (fun r => decide (r.t < e)))
+        = recs.map (fun r => decide (t ≤ r.t) && decide (r.t < e)) := by
+      induction recs with
+      | nil => rfl
+      | cons a l ih => simp [ih]
+    rw [this, selectMask_map_eq_filter]
+
 #print axioms makePairT_eq
 #print axioms crossfoldRecordsT_eq
 end LK.SplitOps
